@@ -3,7 +3,7 @@
     theorems then pin the answer down. *)
 From Coq Require Import ZArith List Bool Arith Lia.
 From RlibV Require Import C01.Model C01.Items C01.Spec C01.Laws C01.Corr
-  C01.ProofsCore C01.ProofsTree C01.ProofsItems C01.ProofsTop C01.Properties C02.Properties.
+  C01.ProofsCore C01.ProofsTree C01.ProofsItems C01.ProofsTop C01.Properties C02.Corr C02.Properties.
 Import ListNotations.
 Local Open Scope nat_scope.
 
@@ -75,3 +75,18 @@ Proof.
   destruct (H [VA 5 0; VA 7 0; VA 11 0; VA 2 0; VA 9 0]) as (t & _ & Hn & HR); [discriminate|].
   exists t. split; [exact HR|exact Hn].
 Qed.
+
+(** a lazy item whose modifier type is zero-sized (Flip, M = unit): the flip of modify(0,3) is still pending at the
+    root when the searches start; both must push it on the way down.  The observation below (what the real code
+    returns) passes model_check and spec_check; the observation of a search that skipped the push (result None,
+    closure shown the stale children (0,2)) fails both. *)
+Definition ex_fl_ops : list (op flip unit pred) :=
+  [ONew 4 (fl_new 0); OModify 0 3 tt; OLowerBound 0 (PFst (PGe 1%Z))].
+Example ex_flip_pending_ok :
+  let c := CFlip (ex_fl_ops, [OUnit; OUnit; OBound (Some 0) [FL 4 4 false; FL 2 2 false; FL 1 1 false]]) in
+  C02.Corr.model_check c = true /\ C02.Corr.spec_check c = true.
+Proof. vm_compute. split; reflexivity. Qed.
+Example ex_flip_pending_skipped_push :
+  let c := CFlip (ex_fl_ops, [OUnit; OUnit; OBound None [FL 4 4 false; FL 0 2 false; FL 0 2 false]]) in
+  C02.Corr.model_check c = false /\ C02.Corr.spec_check c = false.
+Proof. vm_compute. split; reflexivity. Qed.
